@@ -125,7 +125,78 @@ def _trees(maxc):
                 trusted=["cbmc 6.11 SAT back end; goto-instrument DFCC for the replaced call"])
 
 
+def _signed_tbb(maxc):
+    """mcb_sva_signed_tbb: concurrent initialisation (arbitrary push order = arbitrary permutation of the unit vectors),
+    swap without early break, update through parallel_for (TBB contract: the body runs over a partition of the range; one
+    task over the whole range is used here, the per-task frame/functional contract is K5)."""
+    log = []
+    rel = "include/parmcb/parmcb_sva_signed_tbb.hpp"
+    text = X.src(rel)
+    i0 = text.index("mcb_sva_signed_tbb(const Graph &g, WeightMap weight_map")
+    text = text[i0:]
+    init = X.stmt_after(text, r"tbb::concurrent_vector<SpVecGF2<std::size_t>> support;", r"tbb::parallel_for\s*\(", "concurrent support initialisation")
+    main = X.stmt_after(text, r"WeightType mcb_weight = WeightType\(\);", r"\bfor\s*\(", "main loop (signed tbb)")
+    main = X.strip_logging(main, log)
+    def lower_parallel_for(t):
+        """tbb::parallel_for(blocked_range(lo,hi), [&](const blocked_range &r){BODY}) -> BODY over the whole (non-empty) range"""
+        out, n = "", 0
+        while True:
+            m = re.search(r"tbb::parallel_for\s*\(", t)
+            if not m:
+                return out + t, n
+            i = t.index("(", m.start()); j = X._match_close(t, i, "(", ")")
+            args = X.call_args(t[m.start():j + 1])
+            mr = re.match(r"tbb::blocked_range<(?:std::)?size_t>\((.*),\s*(.*)\)$", args[0], re.S)
+            ml = re.match(r"\[&\]\s*\(const tbb::blocked_range<(?:std::)?size_t> &(\w+)\)\s*\{", args[1])
+            if len(args) != 2 or not mr or not ml:
+                raise Undecided("extraction out of date: shape of a tbb::parallel_for call")
+            body = X.body_after(args[1], r"\[&\]\s*\([^)]*\)\s*", "parallel_for body")
+            r = ml.group(1)
+            body = re.sub(r"\b%s\.begin\(\)" % r, "vp_rb", body); body = re.sub(r"\b%s\.end\(\)" % r, "vp_re", body)
+            out += t[:m.start()] + "{ size_t vp_rb = (%s), vp_re = (%s); if (vp_rb < vp_re) { %s } }" % (mr.group(1).strip(), mr.group(2).strip(), body)
+            t = t[j + 1:]
+            n += 1
+    both, npf = lower_parallel_for(init + ";\n" + main)
+    if npf != 2:
+        raise Undecided("extraction out of date: %d parallel_for calls in initialisation + main loop (expected 2)" % npf)
+    log.append(dict(pattern="tbb::parallel_for(range, body)", fired=npf, expected=2, kind="container-api",
+                    note="the body applied to the (non-empty) range - TBB contract; partition into sub-ranges is K5's business"))
+    both = X.rewrite(both, [
+        (r"std::size_t", "size_t", (3, 14), "type-binding", ""),
+        (r"support\.push_back\(SpVecGF2<size_t> \{ (\w+) \}\);", r"support[vp_pos++] = 1UL << PERM[\1];", 1, "container-api",
+         "concurrent push_back of the unit vectors: arbitrary order = an arbitrary permutation PERM of the coordinates"),
+        (r"cycle_timer\.resume\(\);\s*auto cycle = odd_cycle_finder\.find\(support\[k\]\);\s*cycle_timer\.stop\(\);", "cycle_t cycle = phase(k);", 1,
+         "block-abstraction", "OddCycleFinder::find (K8/K8a/K9 units) -> its contract"),
+        (r"auto min_support = k;", "size_t min_support = k;", 1, "type-binding", ""),
+        (r"\bauto (\w+) =", r"size_t \1 =", (1, 3), "type-binding", "remaining auto locals are size_t"),
+        (r"support\[([^\]]+)\]\.size\(\)", r"POP(support[\1])", 2, "overload-resolution", "SpVecGF2::size()"),
+        (r"std::swap\(support\[(\w+)\], support\[(\w+)\]\);", r"{ unsigned long t_ = support[\1]; support[\1] = support[\2]; support[\2] = t_; }", 1,
+         "overload-resolution", "std::swap"),
+        (r"(?:cycle_timer|support_timer)\.(?:resume|stop)\(\);", "", (0, 6), "drop", "timers"),
+        (r"std::set<size_t> cyclek;\s*convert_edges\(std::get<0>\(cycle\), std::inserter\(cyclek, cyclek\.end\(\)\), forest_index\);",
+         "unsigned long cyclek = GET0(cycle);", 1, "container-api", "coordinates of the cycle's edges (K15)"),
+        (r"support\[([^\]]+)\] \* cyclek", r"PAR(support[\1] & cyclek)", 1, "overload-resolution", "K3"),
+        (r"support\[([^\]]+)\] \+= support\[([^\]]+)\]", r"support[\1] ^= support[\2]", 1, "overload-resolution", "K2"),
+        (r"std::list<Edge> cyclek_edgelist;\s*std::copy\(std::get<0>\(cycle\)\.begin\(\), std::get<0>\(cycle\)\.end\(\), std::back_inserter\(cyclek_edgelist\)\);", "", 1,
+         "drop", "copy into the output list"),
+        (r"\*out\+\+ = cyclek_edgelist;", "EMITTED[vp_emitted++] = GET0(cycle);", 1, "container-api", "output iterator"),
+        (r"mcb_weight \+= std::get<1>\(cycle\);", "mcb_weight += GET1(cycle);", 1, "overload-resolution", ""),
+    ], log)
+    extra = "size_t PERM[MAXC + 1]; size_t vp_pos;\n"
+    harness = HARNESS.replace("  vp_in_csd = csd;", "  for (size_t a = 0; a <= MAXC; a++) { __CPROVER_assume(PERM[a] < MAXC + 1 && (a >= csd || PERM[a] < csd)); for (size_t b = 0; b <= MAXC; b++) __CPROVER_assume(a == b || PERM[a] != PERM[b]); }\n  vp_pos = 0;\n  vp_in_csd = csd;")
+    txt = PRE % dict(MAXC=maxc) + extra + "void mainloop(void) {\n  mcb_weight = 0; vp_emitted = 0;\n" + both + "\n}\n" + harness
+    return dict(unit="K16_mainloop_signed_tbb", lang="c", source=rel + " (mcb_sva_signed_tbb: concurrent initialisation + main loop, find() abstracted by its contract)",
+                text=txt, entry="h_main", replace=["phase"], mode="bounded", unwind=maxc + 3, timeout=1800,
+                bound="cycle-space dimension csd <= %d, arbitrary initial order of the unit vectors" % maxc, rewrites=log,
+                dropped=["timers; logging; OddCycleFinder construction"],
+                functions={"mcb_sva_signed_tbb: main loop composition (independence argument)": "bounded(csd<=%d)" % maxc},
+                assumptions=["find() contract = K8/K9 (odd cycle w.r.t. the witness) + K15", "TBB contract for parallel_for; concurrent push_back order = arbitrary permutation",
+                             "SpVecGF2 operators inlined as their contracts K1-K3"],
+                trusted=["cbmc 6.11 SAT back end; goto-instrument DFCC for the replaced call"])
+
+
 def units(tier):
     # the SAT instance grows quickly with csd (csd<=6: 23 s, csd<=7: > 400 s for the signed loop)
     big = tier == "thorough"
-    return [X.guarded("K16_mainloop_signed", _signed, 6 if big else 5), X.guarded("K16_mainloop_trees", _trees, 7 if big else 5)]
+    return [X.guarded("K16_mainloop_signed", _signed, 6 if big else 5), X.guarded("K16_mainloop_trees", _trees, 7 if big else 5),
+            X.guarded("K16_mainloop_signed_tbb", _signed_tbb, 5 if big else 4)]
